@@ -38,7 +38,7 @@ CHECKS = {
     technique='symbolic execution of the real Python code with a symbolic fault index (z3 Int) over instrumented stream doubles',
     engine='SX'),
  'C17': dict(
-    level=('model_checking', 'Six parser configurations are built by the real code in separate interpreters on scratch copies (generated modules, in-memory un-optimised, helper first-build, helper re-optimise, and the helper run from a partial stale module set: stale yacctab only / stale lextab only); their LALR tables are compared pairwise by LR-SAT in-equivalence queries over all token strings up to length 5/7 (identical tables give a syntactically unsatisfiable formula, differing ones a SAT search for a distinguishing input); master lexer patterns and rule bindings compared alternative by alternative; SX proves for every spelling that each lexer rule function returns a declared token type (the check ply skips in optimised mode, so a violation is exactly an input on which the modes diverge).', 'DESIGN.md C17'),
+    level=('model_checking', 'Six parser configurations are built by the real code in separate interpreters on scratch copies (generated modules, in-memory un-optimised, helper first-build, helper re-optimise, and the helper run from a partial stale module set: stale yacctab only / stale lextab only); their LALR tables are compared pairwise by LR-SAT in-equivalence queries over all token strings up to length 5/9 (identical tables give a syntactically unsatisfiable formula, differing ones a SAT search for a distinguishing input); master lexer patterns and rule bindings compared alternative by alternative; SX proves for every spelling that each lexer rule function returns a declared token type (the check ply skips in optimised mode, so a violation is exactly an input on which the modes diverge).', 'DESIGN.md C17'),
     note='Trusted: ply semantics; textual identity of master regexes implies equal lexing. Outside: longer inputs; language-equivalence of textually different master patterns is reported as inconclusive, not decided.',
     technique='bounded SAT in-equivalence of LALR table sets (LR-SAT) + symbolic execution (z3 strings) of the lexer rule functions',
     engine='GX+SX'),
@@ -105,8 +105,8 @@ CHECKS = {
     engine='SX'),
  'C09': dict(
     level=('other', 'Bounded/inductive symbolic execution of the real sourcemap.write, normalize_mapping_line(s), Names, Bookkeeper, encode_sourcemap (SX, z3 Ints for every position, length and index): '
-                    'W = one step from an arbitrary valid writer state for each of 504 fragment shapes (induction over stream length), N = normalisation of symbolic lines of <= 4/5 segments with arbitrary carry (induction over lines), '
-                    'E = whole runs from the initial state on <= 2/3 fragments decoded from scratch by a spec decoder; C = 1400 concrete streams with LF/CR/CRLF in every position of a chunk (validates the text model; fall-back when a change makes the symbolic legs inconclusive). A solver is the right tool: the defects live in running deltas whose wrong values appear only after particular sequences, and one inductive step covers all of them.', 'DESIGN.md C09'),
+                    'W = one step from an arbitrary valid writer state for each of 504 fragment shapes (induction over stream length), N = normalisation of symbolic lines of <= 4/6 segments with arbitrary carry (induction over lines), '
+                    'E = whole runs from the initial state on <= 2/4 fragments decoded from scratch by a spec decoder; C = 1400 concrete streams with LF/CR/CRLF in every position of a chunk (validates the text model; fall-back when a change makes the symbolic legs inconclusive). A solver is the right tool: the defects live in running deltas whose wrong values appear only after particular sequences, and one inductive step covers all of them.', 'DESIGN.md C09'),
     note='Trusted: z3; SX instrumentation; ref/sourcemap_ref.py as the reading of Source Map V3; the writer-state representation invariant (base case checked by leg E). Stub: encode_mappings (VLQ text) is C10. Outside: text shapes with more than two line pieces per fragment, fragments giving only one of line/column.',
     technique='symbolic execution of the real Python code with z3 (inductive step over an arbitrary symbolic writer state + bounded whole runs), differential against a spec decoder on the same symbolic segments',
     engine='SX'),
